@@ -621,7 +621,7 @@ def check_diff_integ(c, qs):
                   {"qpos1": q1, "qpos2": q2, "h": h})
 
 
-def check_model(lib, part, par, js, pv, feat):
+def check_model(lib, part, par, js, pv, feat, thorough=False):
     c = Case(lib, part, par, js, pv, feat)
     m, d, mv = c.m, c.d, c.mv
     nv = m.nv
@@ -631,6 +631,8 @@ def check_model(lib, part, par, js, pv, feat):
         mq = np.tile(np.array([0.9, -0.4, 1.1, 0.5]), (m.nmocap, 1))        # deliberately not normalised
         c.mocap = (mp, mq)
     qs = A.qpos_lattice(m, limit=12)
+    if c.cons and not thorough:
+        qs = qs[:8]
     vs = A.qvel_lattice(nv, units=False)[1:]
     if nv:
         vs = vs + [np.array([(-1.0) ** (i // 2) * (0.4 + 0.25 * ((i * 7) % 5)) for i in range(nv)])]
@@ -660,7 +662,7 @@ def check_model(lib, part, par, js, pv, feat):
         if kin_fd:
             check_velocities(c, q, v0, dict(st, qvel=v0), fd)
     if feat == "plain":
-        check_diff_integ(c, qs[:6])
+        check_diff_integ(c, qs[:6] if thorough else qs[:4])
     mx = part.setdefault("maxerr", {})       # calibration aid only (ignored by Ctx.merge)
     for k, e in c.maxerr.items():
         if e > mx.get(k, (0.0, ""))[0]:
@@ -671,9 +673,9 @@ def check_model(lib, part, par, js, pv, feat):
 def _chunk(chunk):
     lib = mj.load()
     part = core.Part()
-    for par, js, pv, feat in chunk:
+    for par, js, pv, feat, thorough in chunk:
         try:
-            check_model(lib, part, par, js, pv, feat)
+            check_model(lib, part, par, js, pv, feat, thorough)
         except mj.MjError as e:
             part.violation("engine error", "unexpected mju_error/compile error at parents=%s joints=%s pv=%d feat=%s: %s" % (par, js, pv, feat, e),
                            {"parents": par, "joints": js, "pv": pv, "feat": feat})
@@ -687,10 +689,13 @@ def enumerate_items(thorough):
     items = []
     idx = 0
     for par, js in models(3, None):
-        pvs = (0, 1, 2) if (thorough or len(par) <= 2) else (idx % 3,)
+        full = thorough or len(par) <= 2
+        pvs = (0, 1, 2) if full else (idx % 3,)
+        # quick tier, 3 bodies: one placement variant and one of the two constraint variants per model, rotating with the index
+        feats = FEATS if full else ("plain", ("dense", "sparse")[(idx // 3) % 2])
         for pv in pvs:
-            for feat in FEATS:
-                items.append((par, js, pv, feat))
+            for feat in feats:
+                items.append((par, js, pv, feat, thorough))
         idx += 1
     if thorough:
         menu4 = ["none", "hinge", "slide", "ball", "free", "hinge2"]
@@ -698,8 +703,8 @@ def enumerate_items(thorough):
             if len(par) < 4:
                 continue
             # 4 bodies: always the plain variant, the two constraint variants alternate with the model index
-            for feat in ("plain", ("dense", "sparse")[idx % 2]):
-                items.append((par, js, idx % 3, feat))
+            for feat in ("plain", ("dense", "sparse")[(idx // 3) % 2]):
+                items.append((par, js, idx % 3, feat, thorough))
             idx += 1
     return items
 
@@ -714,10 +719,10 @@ def run(ctx):
     ctx.rule = ("all rooted ordered forests with <=3 bodies x full product of the joint menu %s per body (free only on roots) x placement "
                 "variant pv (all 3 for <=2 bodies%s; body frame / joint axis / anchor / inertial-frame kind S,G,I,R / ref / mocap root "
                 "rotate with body index + pv) x features {plain, constraints+dense+elliptic, constraints+sparse+pyramidal}%s; per model "
-                "a covering lattice of <=12 configurations (scalars {0,.37,-1.3}, quaternions {id, 90deg, (.5,.5,.5,.5), pi-1e-9}), 2 "
+                "a covering lattice of <=12 configurations (<=8 for the constraint variants in the quick tier; scalars {0,.37,-1.3}, quaternions {id, 90deg, (.5,.5,.5,.5), pi-1e-9}), 2 "
                 "alternating velocity patterns; central differences eps=1e-6 along mj_integratePos for every dof. non-trivial = (model,state) with "
                 "nv>=3 or a branching forest"
-                % (list(A.JOINTS), ", pv = index mod 3 for 3 bodies" if not ctx.thorough else " and 3 bodies",
+                % (list(A.JOINTS), "; 3 bodies: pv = index mod 3 and plain + one constraint variant alternating with index div 3" if not ctx.thorough else " and 3 bodies",
                    "; 4 bodies: menu without slidehinge, pv = index mod 3, plain + one alternating constraint variant" if ctx.thorough else ""))
     ctx.assumptions = ["compiled model arrays (body_pos/quat, jnt_pos/axis, geom/site/cam local poses, masses) are the input of the reference kinematics",
                        "finite differences: eps=1e-6, tolerance 1e-6 relative (noise ~1e-9); exact relations 1e-11",
